@@ -23,6 +23,9 @@ CHECKS = {
  'C01': ('model_checking', 'symbolic execution of clang LLVM IR of both conversion legs of every unit (and static pairs); z3 nlsat bounds the result, under the standard rounding model, against the exact affine map an independent unit-symbol expander (O-unit) derives from the unit\'s own abbreviation',
          'All 514 units x 2 legs x 3 numeric types plus static unit pairs are executed symbolically from clang IR and shown to be within 8 (16 for pairs) ulps of the exact SI factor (rational times a power of pi) and offset that O-unit computes from the unit\'s own symbol, for all real inputs and all admissible rounding errors; standard-unit legs are the identity on bits.',
          'standard model of rounding (no overflow/underflow); O-unit conventions (SI 2019 / NIST SP 811); clang constant folding is part of the analysed code; glibc pow with constant arguments accurate to one ulp (long double only)', '3 C01'),
+ 'C02': ('model_checking', 'symbolic execution of clang LLVM IR (-fno-inline) of every conversion entry point including the run-time dispatch, whose tables are built by executing their own dynamic initialisers; z3 decides bit-identity with the scalar static conversion legs, unit pair symbolic',
+         'The run-time scalar path is executed with both units symbolic (all ordered pairs of all 37 types, 3 numeric types) and every path shown to return the term of the static legs with no lookup miss; array/vector/PlanarVector/Vector/SymmetricDyad/Dyad forms (in-place, copying, compile-time), quantity constructors, Value(unit), StaticValue and Create are shown component-wise identical to the scalar legs; copying forms leave their argument unchanged; read-back in the same unit is within 16 ulps.',
+         'summaries for std::map construction/find/at and operator new (std::function, std::array, std::vector are executed); clang 14 IR at -O1 -fno-inline; scalar legs are the reference (their numerical correctness is C01); std::vector sizes 0,1,3; printing forms are C15', '3 C02'),
 }
 NA = {}
 def main():
